@@ -168,7 +168,7 @@ def check(ctx):
                 if x[0] == "bin" and x[3][0] == "const" and x[3][1] == 0 and gs.has_call(x[2], r"::len$") and fanout_derived(f, x[2]):
                     return (x[1], l) in (("Eq", "true"), ("Ne", "false"), ("Gt", "false"))
                 return False
-            guarded = bool(f.guard_edges(no_prior)) and f.must_pass_edges(s.bb, f.guard_edges(no_prior))
+            guarded = bool(gs.guard(f, no_prior)) and f.must_pass_edges(s.bb, gs.guard(f, no_prior))
             ok = carries or guarded
             ctx.ob("store", "no overwrite of the fanout entry", ok, s.loc(),
                    ("%s(self.fanout, ..) replaces the topic's set: its value does not derive from the prior entry and the call is not "
